@@ -65,6 +65,10 @@ func sizedStore(ls *ipld.LinkSystem, lp datamodel.LinkPrototype, n datamodel.Nod
 	lnk, err := wrappedLinkSystem(ls, func(bc int) {
 		byteCount = bc
 	}).Store(ipld.LinkContext{}, lp, n)
+	if err != nil {
+		// Store reports the computed link even when the commit failed
+		return nil, 0, err
+	}
 	return lnk, uint64(byteCount), err
 }
 
